@@ -453,7 +453,10 @@ func (c *UDPConn) send(b []byte, dst netip.AddrPort) (int, error) {
 	}
 	n.Sent++
 	n.mu.Unlock()
-	n.R.Log("send %s -> %v id=%d len=%d", c.name, dst, d.ID, len(b))
+	n.R.Log("send %s -> %v id=%d len=%d h=%08x", c.name, dst, d.ID, len(b), payloadHash(b))
+	if os.Getenv("SIM_DUMP") == "1" {
+		fmt.Fprintf(os.Stderr, "DUMP id=%d %x\n", d.ID, b)
+	}
 	if n.OnSend != nil {
 		n.OnSend(d)
 	}
@@ -846,4 +849,12 @@ func (n *Net) Delivered(id uint64) *Datagram {
 	n.mu.Lock()
 	defer n.mu.Unlock()
 	return n.deliveredByID[id]
+}
+
+func payloadHash(b []byte) uint32 {
+	h := uint32(2166136261)
+	for _, c := range b {
+		h = (h ^ uint32(c)) * 16777619
+	}
+	return h
 }
